@@ -1352,17 +1352,20 @@ package collection
 
 //@ iface QueueClassLike.MakeWithCapacity
 //@   nopanic
-//@   ensures fresh(result) && result != nil && view(result) == empty()
+//@   ensures fresh(result) && result != nil && view(result) == empty() && capacity(result) >= 1 && (capacity >= 1 ==> capacity(result) == capacity)
 
 //@ iface NotationClassLike.Make
 //@   nopanic
 //@   ensures result != nil
 
+// sequential reading; on a queue that this very call allocated (thread-confined: nobody else can remove)
+// the call must be provably non-blocking
 //@ iface QueueLike.AddValue
 //@   nopanic
 //@   mayblock
-//@   requires nonnilq(this) ==> value != nil
+//@   requires[C05] localfresh(this) ==> len(view(this)) < capacity(this)
 //@   modifies view(this)
+//@   ensures view(this) == old(view(this)) ++ single(value)
 
 // parsedval(source): the value ParseSource returns for a source text (a function of the text only: C10/C11)
 //@ declare parsedval(Str) U
@@ -1370,3 +1373,63 @@ package collection
 //@   defines result == parsedval(source)
 //@ iface NotationLike.FormatValue
 //@   nopanic
+
+// ---------------------------------------------------------------- queue_ (C04, C05, C18): sequential reading + guarded-by
+
+// held(m): the mutex at address m is held by the thread under analysis
+//@ model held Bool
+//@ assume func (*sync.Mutex).Lock
+//@   nopanic
+//@   requires !held(this)
+//@   modifies held(this)
+//@   ensures held(this)
+//@ assume func (*sync.Mutex).Unlock
+//@   nopanic
+//@   requires held(this)
+//@   modifies held(this)
+//@   ensures !held(this)
+
+//@ define qmutex(q) := fieldaddr(q, mutex_)
+//@ type *queueClass_
+//@   hypothesis this.defaultCapacity_ >= 1
+
+// quiescent invariant: one token in the channel per queued value, never more than the capacity
+//@ type *queue_
+//@   view view(this.values_)
+//@   modelfield capacity this.capacity_
+//@   guarded_by mutex_: values_, available_
+//@   invariant this.class_ != nil && this.values_ != nil && this.available_ != nil && this.capacity_ >= 1
+//@   invariant[C04] chanlen(this.available_) == len(view(this.values_)) && chancap(this.available_) == this.capacity_ && len(view(this.values_)) <= this.capacity_
+
+//@ iface QueueClassLike.Notation
+//@   nopanic
+//@ iface QueueClassLike.Make
+//@   nopanic
+//@   ensures fresh(result) && result != nil && view(result) == empty() && capacity(result) >= 1
+//@ iface QueueClassLike.MakeFromArray
+//@   nopanic
+//@   ensures[C05,C18] fresh(result) && result != nil && view(result) == view(values) && len(view(result)) <= capacity(result)
+//@ iface QueueClassLike.MakeFromSequence
+//@   nopanic
+//@   ensures[C05,C18] fresh(result) && result != nil && view(result) == view(values) && len(view(result)) <= capacity(result)
+//@ iface QueueLike.GetCapacity
+//@   nopanic
+//@   ensures result == capacity(this) && result >= 1
+
+//@ func (*queueClass_).MakeWithCapacity
+//@   props C04 C05
+//@   implements QueueClassLike.MakeWithCapacity
+//@   ensures[C04] inv(queue_, result) && capacity(result) >= 1 && (capacity >= 1 ==> capacity(result) == capacity)
+//@ func (*queueClass_).Make
+//@   props C04 C05
+//@   implements QueueClassLike.Make
+//@ func (*queueClass_).MakeFromSequence
+//@   props C05 C18
+//@   implements QueueClassLike.MakeFromSequence
+//@   loop 1:
+//@     invariant snap(iterator) == old(view(values)) && 0 <= pos(iterator) && pos(iterator) <= len(snap(iterator))
+//@     invariant queue != nil && fresh(queue) && view(queue) == old(view(values))[0 : pos(iterator)] && len(snap(iterator)) <= capacity(queue)
+//@     decreases len(snap(iterator)) - pos(iterator)
+//@ func (*queueClass_).MakeFromArray
+//@   props C05 C18
+//@   implements QueueClassLike.MakeFromArray
